@@ -104,6 +104,16 @@ def cases(tier, seed):
             out.append({"key": f"full/{sname}/{m}x{n}", "entry": "classical_qsvd_full", "m": m, "n": n, "vals": vals_, "kU": "hh", "kV": "hh", "row": 0, "R": None})
             for R in range(1, p_ + 1):
                 out.append({"key": f"trunc/{sname}/{m}x{n}/R={R}", "entry": "classical_qsvd", "m": m, "n": n, "vals": vals_, "kU": "hh", "kV": "hh", "row": 0, "R": R})
+    # steep leading decay on inputs with min(m,n) >= 8, small truncation ranks (4R <= min(m,n)): s_R / s_1 between 1e-3 and 1e-6, all values
+    # distinct; a method that works on the Gram matrix squares these ratios and loses the R-th direction's orthogonality
+    for si_, lead in enumerate((2.0 ** -10, 1.05e-5, 2.0 ** -20, 1e-4)):
+        for (m, n) in ((12, 8), (8, 12), (9, 9), (16, 8), (20, 12)):
+            p_ = min(m, n)
+            vals_ = [1.0] + [lead * 0.5 ** t * (1.0 + 0.0625 * t) for t in range(p_ - 1)]
+            for R in (1, 2, 3):
+                if 4 * R <= p_ or R == 3:
+                    out.append({"key": f"trunc/steep{si_}/{m}x{n}/R={R}", "entry": "classical_qsvd", "m": m, "n": n, "vals": vals_, "kU": "hh", "kV": "hh", "row": 0, "R": R})
+            out.append({"key": f"full/steep{si_}/{m}x{n}", "entry": "classical_qsvd_full", "m": m, "n": n, "vals": vals_, "kU": "hh", "kV": "hh", "row": 0, "R": None})
     # rectangular inputs whose column (row) space contains a canonical fixed probe vector: first column = probe (tall), first row = probe^H (wide)
     for (m, n) in ((4, 3), (6, 5), (3, 4), (5, 6), (5, 3), (3, 5)):
         for pi_ in range(16):
@@ -169,6 +179,8 @@ def run_case(case, seed):
     nA = max(O.fro(A), 1.0) if not case.get("scale") else O.fro(A)
     bud = O.budget(nA, dims=4 * max(m, n))
     nzv = sorted({v for v in vals if v > 0}, reverse=True)
+    if R is not None:
+        nzv = nzv[: int(R) + 1]  # truncated factors: only the gaps around the kept values matter
     gap_rel = min(((a - b) / nzv[0] for a, b in zip(nzv, nzv[1:])), default=1.0)
     if gap_rel < 2.0 ** -6:
         # close (not equal) singular values: the contraction of the real singular vectors loses accuracy like u * sigma_1 / gap - the
@@ -196,6 +208,8 @@ def run_case(case, seed):
             dV = O.unitarity_defect(V)
             # singular vectors are determined only up to u * sigma_max / gap: scale the budget when the spectrum is graded
             dv = sorted(set(vals + ([0.0] if m != n else [])), reverse=True)
+            if case.get("R") is not None and case["entry"] == "classical_qsvd":
+                dv = dv[: int(case["R"]) + 1]  # truncated factors: only the gaps around the kept values limit the accuracy of the kept vectors
             gap_min = min((a - b for a, b in zip(dv, dv[1:])), default=max(dv[0], 1.0)) if len(dv) > 1 else max(dv[0], 1.0)
             tol_u = O.budget(1.0, dims=16 * max(m, n)) * max(1.0, 2.0 ** -10 * (dv[0] / gap_min if gap_min > 0 else 1.0), (2.0 ** -6 / gap_rel) if gap_rel < 2.0 ** -6 else 1.0)
             if dU > tol_u:
